@@ -1769,6 +1769,76 @@ def _np_sum(i, a, k):
     return r if r is not None else reduce_arr(i, 'sum', a[0])
 
 
+def _as_vec(v):
+    if isinstance(v, Vec):
+        return v
+    if isinstance(v, Arr) and isinstance(v.n, int) and v.cols is None:
+        return Vec([v.fn(t) for t in range(v.n)])
+    if isinstance(v, (list, tuple)):
+        return Vec(list(v))
+    return None
+
+
+def _np_dot(i, a, k):
+    """numpy.dot: (rows x w) . (w,) -> one weighted sum per row ; (w,) . (w,) -> scalar (concrete widths)"""
+    x, w = a[0], a[1]
+    wv = _as_vec(w)
+    if isinstance(x, Arr) and x.cols is not None and wv is not None and len(wv.e) == x.cols:
+        used('numpy.dot (row-wise weighted sum over a concrete number of columns)')
+        fn = x.fn
+
+        def row(kk):
+            r_ = fn(kk)
+            t = 0
+            for u, v in zip(r_.e, wv.e):
+                t = ops.arith('+', t, ops.arith('*', u, v))
+            return t
+        return Arr(x.n, row, np=True)
+    xv = _as_vec(x)
+    if xv is not None and wv is not None and len(xv.e) == len(wv.e):
+        t = 0
+        for u, v in zip(xv.e, wv.e):
+            t = ops.arith('+', t, ops.arith('*', u, v))
+        return t
+    raise OutOfSubset('numpy.dot of these shapes')
+
+
+def _np_arange(i, a, k):
+    if all(isinstance(x, int) and not isinstance(x, bool) for x in a) and 1 <= len(a) <= 3:
+        return Vec(list(range(*a)))
+    raise OutOfSubset('numpy.arange with symbolic bounds')
+
+
+def _np_ones(i, a, k):
+    n, cols = _shape_arg(a[0])
+    if isinstance(n, int) and cols is None:
+        return Vec([1] * n)
+    return _np_filled(i, n, cols, 1)
+
+
+def _np_convolve(i, a, k):
+    """numpy.convolve(x, v, mode='valid') for a series of symbolic length and a kernel of concrete length w <= len(x):
+    out[j] = sum_t x[j + t] * v[w - 1 - t], len(x) - w + 1 entries"""
+    x, v = a[0], a[1]
+    mode = a[2] if len(a) > 2 else k.get('mode', 'full')
+    vv = _as_vec(v)
+    arr = as_arr(x)
+    if mode != 'valid' or vv is None or arr.cols is not None:
+        raise OutOfSubset('numpy.convolve form')
+    w = len(vv.e)
+    if i.ctx.branch(ops.compare('<', arr.n, w)):
+        raise OutOfSubset('numpy.convolve with a kernel longer than the series')
+    used('numpy.convolve (valid mode, concrete kernel)')
+    fn = arr.fn
+
+    def at(kk):
+        t = 0
+        for j in range(w):
+            t = ops.arith('+', t, ops.arith('*', fn(ops.arith('+', kk, j)), vv.e[w - 1 - j]))
+        return t
+    return Arr(ops.arith('+', ops.arith('-', arr.n, w), 1), at, np=True)
+
+
 def _np_sliding_window_view(i, a, k):
     """numpy.lib.stride_tricks.sliding_window_view(x, w) for a 1-D array of symbolic length and a concrete window width:
     row j is (x[j], ..., x[j + w - 1]); n - w + 1 rows (ValueError when the window is longer than the array)"""
@@ -2095,7 +2165,7 @@ def ext_call(name):
             'numpy.ceil': _np_ceil, 'numpy.all': np_all, 'numpy.any': np_any, 'numpy.where': _np_where,
             'numpy.maximum': _np_maximum, 'numpy.minimum': _np_minimum, 'numpy.max': _np_max, 'numpy.min': _np_min,
             'numpy.amax': _np_max, 'numpy.amin': _np_min, 'numpy.nanmax': _np_max, 'numpy.nanmin': _np_min,
-            'numpy.sum': _np_sum, 'numpy.mean': _np_mean, 'numpy.lib.stride_tricks.sliding_window_view': _np_sliding_window_view, 'numpy.abs': _b_abs, 'numpy.absolute': _b_abs, 'numpy.array_equal': _np_array_equal, 'numpy.array_equiv': _np_array_equiv, 'numpy.gcd.reduce': _np_gcd_reduce, 'numpy.lcm.reduce': _np_lcm_reduce,
+            'numpy.sum': _np_sum, 'numpy.mean': _np_mean, 'numpy.lib.stride_tricks.sliding_window_view': _np_sliding_window_view, 'numpy.dot': _np_dot, 'numpy.convolve': _np_convolve, 'numpy.arange': _np_arange, 'numpy.ones': _np_ones, 'numpy.abs': _b_abs, 'numpy.absolute': _b_abs, 'numpy.array_equal': _np_array_equal, 'numpy.array_equiv': _np_array_equiv, 'numpy.gcd.reduce': _np_gcd_reduce, 'numpy.lcm.reduce': _np_lcm_reduce,
             'numpy.isnan': _np_isnan, 'numpy.round': _np_round, 'numpy.copy': lambda i, a, k: np_copy(a[0]),
             'numpy.sqrt': lambda i, a, k: elementwise1(i, lambda x: np_sqrt_scalar(i, x), a[0]),
             'math.isnan': _math_isnan, 'math.floor': _math_floor, 'math.ceil': _math_ceil, 'math.sqrt': _math_sqrt,
